@@ -7,7 +7,9 @@
    * guarded recursion: if *depth == MAX { Err }; *depth += 1; recurse; *depth -= 1     dotnet parse_type_spec
    * pe parse_resources: breadth-first walk of the resource directory graph,
      no memory of visited directories, entries of a directory processed only at
-     levels 0..rsrc_max_level, sub-directories queued with level + 1. *)
+     levels 0..rsrc_max_level, sub-directories queued with level + 1 only while
+     level < rsrc_deepest_level (both generated); leaves are collected to the cap
+     MAX_PE_RESOURCES (the collect-to-cap shape). *)
 From Coq Require Import List NArith Arith Bool Lia.
 From YV Require Import Gen.ModCaps.
 Import ListNotations.
@@ -59,8 +61,7 @@ Fixpoint level_items (g : rgraph) (root : nat) (k : nat) : list nat :=
   | S j => next_level g (level_items g root j)
   end.
 
-(* directories dequeued and parsed: levels 0 .. max_level + 1 (the entries of the
-   last level are all skipped by `_ => continue`, nothing is queued from it) *)
+(* directories dequeued and parsed: levels 0 .. rsrc_deepest_level *)
 Fixpoint dirs_parsed (g : rgraph) (root : nat) (k : nat) : nat :=
   match k with
   | O => length (level_items g root 0)
@@ -71,8 +72,8 @@ Fixpoint entries_iterated (g : rgraph) (root : nat) (k : nat) : nat :=
   let here := fold_right (fun d n => length (g d) + n) 0 (level_items g root k) in
   match k with O => here | S j => entries_iterated g root j + here end.
 
-Definition rsrc_dirs_parsed (g : rgraph) (root : nat) : nat := dirs_parsed g root (S rsrc_max_level).
-Definition rsrc_entries_iterated (g : rgraph) (root : nat) : nat := entries_iterated g root (S rsrc_max_level).
+Definition rsrc_dirs_parsed (g : rgraph) (root : nat) : nat := dirs_parsed g root rsrc_deepest_level.
+Definition rsrc_entries_iterated (g : rgraph) (root : nat) : nat := entries_iterated g root rsrc_deepest_level.
 
 (* the self-referential table: directory 1 has e sub-directory entries that
    all point to directory 1; the root (0) has e entries pointing to 1 *)
